@@ -14,8 +14,8 @@ open Pool
 /-- whatever the worker's outcome (`e = none`: returned, `e = some x`: raised `x`), the step that ends the worker
 goes through the same `_task_ending` path and preserves every invariant: slot conservation (the slot is handed back
 exactly once), the registries, the groups and the callback life cycle -/
-theorem C12_failure_same_invariants {cap : Cap} {L : Bool} (p : Pool) (t : Nat) (e : Option Err) (hg : Good cap L p) (s : SoftP)
-    (hc : p.Cur t s) (hph : s.phase = .inWorker) : Good cap L (p.afterWorker t e) :=
+theorem C12_failure_same_invariants {cap : Cap} {L R : Bool} (p : Pool) (t : Nat) (e : Option Err) (hg : Good cap L R p) (s : SoftP)
+    (hc : p.Cur t s) (hph : s.phase = .inWorker) : Good cap L R (p.afterWorker t e) :=
   good_afterWorker p t e hg s hc (inWork_of hc hg (Or.inr hph))
 
 /-- **every task that finishes has handed back its slot**, in every pool after every history (any sizes, failures,
